@@ -398,6 +398,10 @@ def wrappers(x, strict=True, small=False):
         out.append(["ProcessRotateLeft", 3, 1, x])
         if not small:
             out.append(["ProcessRotateLeft", 8, 2, x])
+            out.append(["ProcessRotateLeft", 8, 3, x])
+            out.append(["ProcessRotateLeft", 24, 4, x])
+            out.append(["ProcessRotateLeft", -16, 3, x])
+            out.append(["ProcessRotateLeft", 5, 3, x])
     if not greedy:
         for n in ((2,) if small else (0, 1, 2, 3)):
             out.append(["Array", n, x])
@@ -625,7 +629,7 @@ def values(t, cap=6):
             out.append((1, (1).to_bytes(n, "big")))
         return out
     if k == "GreedyBytes":
-        return [(v, v) for v in [b"", b"\x00", b"ab", b"ab\x00", b"\xff\xff\xff", b"\x00\x01"]] + [(bytearray(b"xy"), b"xy")]
+        return [(v, v) for v in [b"", b"\x00", b"ab", b"ab\x00", b"\xff\xff\xff", b"\x00\x01", b"\x01\x02\x03\x04", b"abcdef"]] + [(bytearray(b"xy"), b"xy")]
     if k == "Flag":
         return [(True, True), (False, False), (2, True), (0, False), (None, False), ("x", True)]
     if k == "BitsInteger":
@@ -700,7 +704,7 @@ def values(t, cap=6):
         return values(t[1], cap)
     if k in ("Prefixed", "FixedSized", "Padded", "Aligned", "NullTerminated", "NullStripped", "ProcessXor", "ProcessRotateLeft",
              "ByteSwapped", "BitsSwapped", "Bitwise", "Bytewise", "OffsettedEnd"):
-        return values(R.child(t) if R.child(t) is not None else t[3], cap)[:cap + 2]
+        return values(R.child(t) if R.child(t) is not None else t[3], cap)[:cap + 4]
     if k == "PrefixedArray":
         return lists_of(values(t[2], 4), [0, 1, 2, 3])
     if k == "Array":
